@@ -33,6 +33,9 @@ def arrangement_field(name):
     return 'gpu' in name.lower() or 'queue' in name.lower()
 
 
+SMALL_PLATFORM = 'cus=1,sas=2'
+
+
 def prog_key(c):
     return '%s[%s]/%s' % (c['w'], ','.join(str(x) for x in c['p']), c['c']['arch'])
 
@@ -55,8 +58,18 @@ def groups(ctx, thorough):
         var = [c for c in cs if c['c']['n'] > 1]
         if ref and var:
             out.append((key, ref[0], sorted(var, key=c01.case_key)))
+    # unified device on a timing platform with few compute units (2 per GPU): there the number of work-groups exceeds the
+    # CU count, so the per-GPU shares of distributeWGToGPUs have real remainders (on the stock platform 64 CUs per GPU
+    # swallow a small grid whole)
+    def small(var, i, both):
+        uni = [c for c in var if c['c']['mode'] == 'timing' and c['c']['dist'] == 'unified' and c['c']['umem'] == 0]
+        uni = sorted(uni, key=c01.case_key)
+        if not both:
+            uni = uni[(i + ctx.seed) % len(uni):][:1] if uni else []
+        return [dict(c, knobs=SMALL_PLATFORM) for c in uni]
+
     if thorough:
-        return out
+        return [(key, ref, var + small(var, i, True)) for i, (key, ref, var) in enumerate(out)]
     # quick: one program per workload (rotating size class), all emulation variants of the distributing workloads and the
     # unified ones of the rest, plus two timing variants per distributing workload
     byw = {}
@@ -64,12 +77,16 @@ def groups(ctx, thorough):
         byw.setdefault(g[1]['w'], []).append(g)
     pick = []
     for i, (w, gs) in enumerate(sorted(byw.items())):
+        # every size class on the small unified platform (cheap, and the remainders differ per size)
+        for j, (key2, ref2, var2) in enumerate(gs):
+            if j != (ctx.seed + i) % len(gs) and small(var2, i + j, False):
+                pick.append((key2, ref2, small(var2, i + j, False)))
         key, ref, var = gs[(ctx.seed + i) % len(gs)]
         emu = [c for c in var if c['c']['mode'] == 'emu' and (w in DISTRIBUTING or c['c']['dist'] == 'unified')]
         emu = [c for j, c in enumerate(emu) if w in DISTRIBUTING or (j + ctx.seed + i) % 4 == 0]
         tim = [c for c in var if c['c']['mode'] == 'timing' and c['c']['umem'] == 0]
         tim = [c for j, c in enumerate(tim) if (j + ctx.seed + i) % len(tim) < (2 if w in DISTRIBUTING else 1)] if tim else []
-        pick.append((key, ref, emu + tim))
+        pick.append((key, ref, emu + tim + small(var, i, False)))
     return pick
 
 
